@@ -865,6 +865,7 @@ class OddFTCorrelationFunction(DFunction, UnitsManaged):
             for p in params:
                 p2calc.append(p)
         
+        temp0 = None
         for params in p2calc:
         
             ftype = params["ftype"]
@@ -883,6 +884,15 @@ class OddFTCorrelationFunction(DFunction, UnitsManaged):
             else:
                 cfce = CorrelationFunction(axis, params)
     
+            # components at different temperatures are refused (each 
+            # component is a correlation function of its own here)
+            if temp0 is None:
+                temp0 = cfce.temperature
+            elif cfce.temperature != temp0:
+                raise Exception("Inconsistent temperature! "
+                                +"Temperatures of all "
+                                +"components have to be the same")
+
             cfce.data = 1j*numpy.imag(cfce.data)
     
             # data have to be protected from change of units
@@ -945,6 +955,7 @@ class EvenFTCorrelationFunction(DFunction, UnitsManaged):
             for p in params:
                 p2calc.append(p)
         
+        temp0 = None
         for params in p2calc:
             
             ftype = params["ftype"]
@@ -964,6 +975,15 @@ class EvenFTCorrelationFunction(DFunction, UnitsManaged):
             else:
                 cfce = CorrelationFunction(axis, params)
                 
+            # components at different temperatures are refused (each 
+            # component is a correlation function of its own here)
+            if temp0 is None:
+                temp0 = cfce.temperature
+            elif cfce.temperature != temp0:
+                raise Exception("Inconsistent temperature! "
+                                +"Temperatures of all "
+                                +"components have to be the same")
+
             cfce.data = numpy.real(cfce.data)
     
             # data have to be protected from change of units
